@@ -1,3 +1,3 @@
-// rank-5 operator() with end-k-family arguments (see drv_views.cpp)
+// rank-5 operator() with end-k-family arguments, const and non-const (see drv_views.cpp)
 #include "drv_views.h"
-VBase* slice5_end(Array<5,int>& a, const std::vector<Arg>& t) { return SliceDisp<5, 0, FAM_END>::go(a, t); }
+VIEWS_DEFINE_SLICE_FAMILY(5, slice_end, FAM_END)
